@@ -29,7 +29,7 @@ func init() {
 	register(&Rule{ID: "C14.R12", Min: 1,
 		Text: "only upper-case ASCII letters are folded: in the parser's case-folding function every store that adds or ors 0x20 into a byte is reached only under both range tests 'A' <= c and c <= 'Z' on that byte — folding any other byte turns control characters into grammar characters (0x0B → '+', 0x0D → '-', 0x10–0x19 → digits)",
 		Run:  ruleFoldOnlyLetters})
-	register(&Rule{ID: "C05.R5", Min: 3,
+	register(&Rule{ID: "C05.R5", Min: 1,
 		Text: "an alias-aware view helper is told the truth: in every call x.innerOrAlias(tmp, a, ai) / innerOrNilOrAlias the view ai is a view of a itself — handing it the view of a third BigInt makes the callee read that object whenever x and a are the same",
 		Run:  ruleAliasHelperPartner})
 	register(&Rule{ID: "C16.R8", Min: 1,
@@ -575,6 +575,19 @@ func ruleAliasHelperPartner(w *World, r *RuleResult) {
 				}
 			}
 			leaves(a[3], 0)
+			if !ok {
+				// the view may itself have been chosen by a written-out alias test (bi := zi; if b != z { bi =
+				// b.inner(&tmp) }): what counts is what it is when all parameters are different objects — where
+				// two of them are one object, the view of the one is a view of the other
+				dead, deadE := deadDistinctNonNil(f)
+				ll := liveLeaves(a[3], dead, deadE, 0)
+				ok = len(ll) > 0
+				for _, l := range ll {
+					if basePtr(l) != basePtr(a[2]) {
+						ok = false
+					}
+				}
+			}
 			if ok {
 				r.ok(key, w.instrPos(c), "the view handed over is a view of the partner parameter", true)
 			} else {
